@@ -90,3 +90,188 @@ theorem x509New_tbs_refused (k : CertKind) (x rest : List Nat)
   rfl
 
 end Codec.DerRd
+
+/-! ## calendar agreement: the writer's `civil_from_days` vs. `DateTime::new` of the `der` crate -/
+namespace Codec.CertAsn1
+open Codec Codec.Der
+
+theorem jan1 (y : Nat) (hy : 1970 ≤ y) :
+    (y - 1970) * 365 + (((y - 1) - 1968) / 4 - ((y - 1) - 1900) / 100 + ((y - 1) - 1600) / 400) + 719468
+      = (y - 1) / 400 * 146097 + ((y - 1) % 400 * 365 + (y - 1) % 400 / 4 - (y - 1) % 400 / 100) + 306 := by
+  omega
+
+set_option maxRecDepth 10000 in
+/-- leap days up to the end of year `y` = leap days up to the end of `y - 1` + (is `y` a leap year) -/
+theorem leap_step (y : Nat) (hy : 1970 ≤ y) :
+    ((y - 1968) / 4 - (y - 1900) / 100 + (y - 1600) / 400)
+      = (((y - 1) - 1968) / 4 - ((y - 1) - 1900) / 100 + ((y - 1) - 1600) / 400) + DerRd.leapAdj (DerRd.isLeapYear y) 3 := by
+  have a4 : (y - 1968) / 4 = ((y - 1) - 1968) / 4 + (if y % 4 = 0 then 1 else 0) := by split <;> omega
+  have a100 : (y - 1900) / 100 = ((y - 1) - 1900) / 100 + (if y % 100 = 0 then 1 else 0) := by split <;> omega
+  have a400 : (y - 1600) / 400 = ((y - 1) - 1600) / 400 + (if y % 400 = 0 then 1 else 0) := by split <;> omega
+  have o1 : ((y - 1) - 1900) / 100 ≤ ((y - 1) - 1968) / 4 := by omega
+  have o2 : (y - 1900) / 100 ≤ (y - 1968) / 4 := by omega
+  rw [a4, a100, a400] at *
+  generalize ((y - 1) - 1968) / 4 = A at *
+  generalize ((y - 1) - 1900) / 100 = B at *
+  generalize ((y - 1) - 1600) / 400 = C at *
+  unfold DerRd.leapAdj
+  by_cases hl : DerRd.isLeapYear y = true
+  · have hl2 := (DerRd.isLeapYear_iff y).1 hl
+    rw [hl]
+    simp only [Bool.true_and, show decide (3 > 2) = true from rfl, if_true]
+    split <;> split <;> split <;> omega
+  · have hl2 : ¬ (y % 4 = 0 ∧ (y % 100 ≠ 0 ∨ y % 400 = 0)) := fun h => hl ((DerRd.isLeapYear_iff y).2 h)
+    have hl3 : DerRd.isLeapYear y = false := by simpa using hl
+    rw [hl3]
+    simp only [Bool.false_and, Bool.false_eq_true, if_false]
+    split <;> split <;> split <;> omega
+
+set_option maxRecDepth 10000 in
+/-- months January / February: day number via the previous March-based year -/
+theorem cal_days_lo (y d yd : Nat) (hy : 1970 ≤ y) (hd : 1 ≤ d) :
+    (y - 1970) * 365 + (((y - 1) - 1968) / 4 - ((y - 1) - 1900) / 100 + ((y - 1) - 1600) / 400) + (yd + (d - 1) + 0)
+      = (y - 1) / 400 * 146097 + ((y - 1) % 400 * 365 + (y - 1) % 400 / 4 - (y - 1) % 400 / 100 + (yd + 306 + d - 1)) - 719468 := by
+  have j1 := jan1 y hy
+  generalize ((y - 1) - 1968) / 4 - ((y - 1) - 1900) / 100 + ((y - 1) - 1600) / 400 = A at *
+  generalize (y - 1) / 400 * 146097 = B at *
+  generalize (y - 1) % 400 * 365 + (y - 1) % 400 / 4 - (y - 1) % 400 / 100 = C at *
+  omega
+
+set_option maxRecDepth 10000 in
+/-- months March … December -/
+theorem cal_days_hi (y d k : Nat) (hy : 1970 ≤ y) (hd : 1 ≤ d) :
+    (y - 1970) * 365 + (((y - 1) - 1968) / 4 - ((y - 1) - 1900) / 100 + ((y - 1) - 1600) / 400)
+        + (59 + k + (d - 1) + DerRd.leapAdj (DerRd.isLeapYear y) 3)
+      = y / 400 * 146097 + (y % 400 * 365 + y % 400 / 4 - y % 400 / 100 + (k + d - 1)) - 719468 := by
+  have j2 := jan1 (y + 1) (by omega)
+  simp only [Nat.add_sub_cancel] at j2
+  have e1 : y + 1 - 1970 = y - 1970 + 1 := by omega
+  rw [e1, leap_step y hy] at j2
+  generalize ((y - 1) - 1968) / 4 - ((y - 1) - 1900) / 100 + ((y - 1) - 1600) / 400 = A at *
+  generalize y / 400 * 146097 = B at *
+  generalize y % 400 * 365 + y % 400 / 4 - y % 400 / 100 = C at *
+  generalize DerRd.leapAdj (DerRd.isLeapYear y) 3 = L at *
+  omega
+
+theorem leapAdj_hi (l : Bool) (m : Nat) (h : 3 ≤ m) : DerRd.leapAdj l m = DerRd.leapAdj l 3 := by
+  unfold DerRd.leapAdj
+  have : decide (m > 2) = true := by simp; omega
+  rw [this]; rfl
+
+theorem leapAdj_lo (l : Bool) (m : Nat) (h : m ≤ 2) : DerRd.leapAdj l m = 0 := by
+  unfold DerRd.leapAdj
+  have : decide (m > 2) = false := by simp; omega
+  rw [this]; simp
+
+/-- **the two day counts agree**: `DateTime::new`'s count (years × 365 + leap days + days before the month + day) equals
+Hinnant's `days_from_civil`, for every date from 1970 on -/
+theorem cal_days (y m d : Nat) (hy : 1970 ≤ y) (hm1 : 1 ≤ m) (hm2 : m ≤ 12) (hd : 1 ≤ d) :
+    (y - 1970) * 365 + (((y - 1) - 1968) / 4 - ((y - 1) - 1900) / 100 + ((y - 1) - 1600) / 400)
+      + (DerRd.ydaysOf m + (d - 1) + DerRd.leapAdj (DerRd.isLeapYear y) m) = daysFromCivil y m d := by
+  unfold daysFromCivil
+  dsimp only
+  by_cases hm : m ≤ 2
+  · rw [if_pos hm, if_neg (show ¬ m > 2 by omega), leapAdj_lo _ _ hm]
+    have hmc : m = 1 ∨ m = 2 := by omega
+    rcases hmc with rfl | rfl
+    · have := cal_days_lo y d 0 hy hd
+      simpa [DerRd.ydaysOf] using this
+    · have := cal_days_lo y d 31 hy hd
+      simpa [DerRd.ydaysOf] using this
+  · rw [if_neg hm, if_pos (show m > 2 by omega), leapAdj_hi _ _ (by omega)]
+    have hmc : m = 3 ∨ m = 4 ∨ m = 5 ∨ m = 6 ∨ m = 7 ∨ m = 8 ∨ m = 9 ∨ m = 10 ∨ m = 11 ∨ m = 12 := by omega
+    rcases hmc with rfl | rfl | rfl | rfl | rfl | rfl | rfl | rfl | rfl | rfl
+    · simpa [DerRd.ydaysOf] using cal_days_hi y d 0 hy hd
+    · simpa [DerRd.ydaysOf] using cal_days_hi y d 31 hy hd
+    · simpa [DerRd.ydaysOf] using cal_days_hi y d 61 hy hd
+    · simpa [DerRd.ydaysOf] using cal_days_hi y d 92 hy hd
+    · simpa [DerRd.ydaysOf] using cal_days_hi y d 122 hy hd
+    · simpa [DerRd.ydaysOf] using cal_days_hi y d 153 hy hd
+    · simpa [DerRd.ydaysOf] using cal_days_hi y d 184 hy hd
+    · simpa [DerRd.ydaysOf] using cal_days_hi y d 214 hy hd
+    · simpa [DerRd.ydaysOf] using cal_days_hi y d 245 hy hd
+    · simpa [DerRd.ydaysOf] using cal_days_hi y d 275 hy hd
+
+set_option maxRecDepth 10000 in
+/-- the year of the era found by `civil_from_days` is the right one: the next year starts after `doe` -/
+theorem yoe_next (doe yoe : Nat) (h : doe < 146097) (hyoe : yoe = (doe - doe / 1460 + doe / 36524 - doe / 146096) / 365) :
+    yoe = 399 ∨ doe < 365 * (yoe + 1) + (yoe + 1) / 4 - (yoe + 1) / 100 := by
+  have h1 : doe / 36524 = 0 ∨ doe / 36524 = 1 ∨ doe / 36524 = 2 ∨ doe / 36524 = 3 ∨ doe / 36524 = 4 := by omega
+  have h2 : doe / 146096 = 0 ∨ doe / 146096 = 1 := by omega
+  have hy : yoe ≤ 400 := by omega
+  have h3 : (yoe + 1) / 100 = 0 ∨ (yoe + 1) / 100 = 1 ∨ (yoe + 1) / 100 = 2 ∨ (yoe + 1) / 100 = 3 ∨ (yoe + 1) / 100 = 4 := by omega
+  rcases h1 with h1 | h1 | h1 | h1 | h1 <;> rcases h2 with h2 | h2 <;> rcases h3 with h3 | h3 | h3 | h3 | h3 <;> omega
+
+set_option maxRecDepth 10000 in
+theorem civil_day_core (days z era doe yoe doy mp : Nat) (hz : z = days + 719468) (hera : era = z / 146097)
+    (hdoe : doe = z % 146097) (hyoe : yoe = (doe - doe / 1460 + doe / 36524 - doe / 146096) / 365)
+    (hdoy : doy = doe - (365 * yoe + yoe / 4 - yoe / 100)) (hmp : mp = (5 * doy + 2) / 153) :
+    doy - (153 * mp + 2) / 5 + 1 ≤ DerRd.daysIn
+      (DerRd.isLeapYear (if (if mp < 10 then mp + 3 else mp - 9) ≤ 2 then yoe + era * 400 + 1 else yoe + era * 400))
+      (if mp < 10 then mp + 3 else mp - 9) := by
+  have hd : doe < 146097 := by omega
+  obtain ⟨y1, y2, y3⟩ := yoe_facts doe yoe hd hyoe
+  obtain ⟨m1, m2, m3⟩ := mp_facts doy mp (by omega) hmp
+  have hn := yoe_next doe yoe hd hyoe
+  by_cases h11 : mp = 11
+  · subst h11
+    have e1 : (if (11 : Nat) < 10 then 11 + 3 else 11 - 9) = 2 := by decide
+    rw [e1]
+    simp only [DerRd.daysIn, Nat.le_refl, if_true]
+    by_cases hl : DerRd.isLeapYear (yoe + era * 400 + 1) = true
+    · rw [if_pos hl]; omega
+    · have hl2 : ¬ ((yoe + era * 400 + 1) % 4 = 0 ∧ ((yoe + era * 400 + 1) % 100 ≠ 0 ∨ (yoe + era * 400 + 1) % 400 = 0)) :=
+        fun h => hl ((DerRd.isLeapYear_iff _).2 h)
+      rw [if_neg hl]
+      have s4 : (yoe + 1) / 4 = yoe / 4 + (if (yoe + 1) % 4 = 0 then 1 else 0) := by split <;> omega
+      have s100 : (yoe + 1) / 100 = yoe / 100 + (if (yoe + 1) % 100 = 0 then 1 else 0) := by split <;> omega
+      have r4 : (yoe + era * 400 + 1) % 4 = (yoe + 1) % 4 := by omega
+      have r100 : (yoe + era * 400 + 1) % 100 = (yoe + 1) % 100 := by omega
+      have r400 : (yoe + era * 400 + 1) % 400 = (yoe + 1) % 400 := by omega
+      have o1 : yoe / 100 ≤ yoe / 4 := by omega
+      rw [r4, r100, r400] at hl2
+      rw [s4, s100] at hn
+      clear hyoe hdoe hz hera r4 r100 r400 s4 s100 hmp m1
+      generalize yoe / 4 = q4 at *
+      generalize yoe / 100 = q100 at *
+      rcases hn with hn | hn
+      · subst hn; omega
+      · split at hn <;> split at hn <;> omega
+  · have hmc : mp = 0 ∨ mp = 1 ∨ mp = 2 ∨ mp = 3 ∨ mp = 4 ∨ mp = 5 ∨ mp = 6 ∨ mp = 7 ∨ mp = 8 ∨ mp = 9 ∨ mp = 10 := by omega
+    rcases hmc with h | h | h | h | h | h | h | h | h | h | h <;> subst h <;> simp [DerRd.daysIn] <;> omega
+
+theorem civil_day_bound (days : Nat) :
+    (civilFromDays days).2.2 ≤ DerRd.daysIn (DerRd.isLeapYear (civilFromDays days).1) (civilFromDays days).2.1 :=
+  civil_day_core days _ _ _ _ _ _ rfl rfl rfl rfl rfl rfl
+
+/-- the calendar fields the writer computes for a Unix time, as the X.509 model's `Cal` -/
+def calOf (t : Nat) : DerRd.Cal :=
+  { year := (civilOfUnix t).year, month := (civilOfUnix t).month, day := (civilOfUnix t).day,
+    hour := (civilOfUnix t).hour, minute := (civilOfUnix t).minute, second := (civilOfUnix t).second }
+
+set_option maxRecDepth 10000 in
+/-- **calendar agreement**: for every instant from the Matter epoch to 9999-12-31T23:59:59Z the date the writer's
+`civil_from_days` computes is a valid date of the X.509 model, and `DateTime::new`'s second count of it is the instant -/
+theorem calOf_agree (t : Nat) (h1 : MATTER_EPOCH_SECS ≤ t) (h2 : t ≤ MAX_UNIX) : (calOf t).Valid ∧ (calOf t).secs = t := by
+  have hE : MATTER_EPOCH_SECS = 946684800 := rfl
+  have hM : MAX_UNIX = 253402300799 := rfl
+  obtain ⟨r1, r2, r3, r4, r5⟩ := civil_roundtrip (t / 86400)
+  have hy1 := year_lower _ _ _ r2 r3 r4 r5 (by rw [r1]; omega)
+  have hy2 := year_upper _ _ _ r2 r3 r4 r5 (by rw [r1]; omega)
+  have hb := civil_day_bound (t / 86400)
+  unfold calOf civilOfUnix
+  dsimp only
+  generalize hc : civilFromDays (t / 86400) = c at *
+  obtain ⟨y, m, d⟩ := c
+  simp only at r1 r2 r3 r4 r5 hy1 hy2 hb ⊢
+  refine ⟨?_, ?_⟩
+  · unfold DerRd.Cal.Valid
+    dsimp only
+    exact ⟨by omega, hy2, r2, r3, r4, hb, by omega, by omega, by omega⟩
+  have hcd := cal_days y m d (by omega) r2 r3 r4
+  unfold DerRd.Cal.secs DerRd.dateTimeSecs
+  dsimp only
+  rw [hcd, r1]
+  omega
+
+end Codec.CertAsn1
